@@ -241,7 +241,20 @@ def make_detector(name, N):
     return contract
 
 
+# ------------------------------------------------------------------------------------------------ caller side
+def physical_layer_wiring(c):
+    """The detectors themselves live in USB3LinkLayer's TSTransceiver, which taps the physical layer's raw_source (stated on the
+    real link layer in c41: training_set_detectors_see_the_raw_receive_stream).  This is the producing side, on the real
+    USB3PhysicalLayer (open PIPE interface, every interface signal a free input; see c31.PhysicalLayerUnits): raw_source is the
+    RxWordAligner's output - PHY receive words with the SKPs removed and the COMs of the ordered sets on word boundaries, and NOT
+    descrambled (training sets are never scrambled) - so 'all input word streams' of the detectors are word-aligned PHY words."""
+    from .c31_scrambling import PhysicalLayerUnits, lemmas_receive_chain_head
+    U = PhysicalLayerUnits(c)
+    lemmas_receive_chain_head(c, U)
+
+
 def contracts(tier):
+    yield ("USB3PhysicalLayer", "wiring_raw_source", physical_layer_wiring)
     if tier == "quick":
         em = [("TS2", 2), ("TS2", 16), ("TSEQ", 65536), ("TS1", 3), ("TS2", 6)]   # 16 / 65536: as instantiated by TSTransceiver; 3, 6: not powers of two
         de = [("TS2", 2), ("TS1", 8), ("TS2", 8), ("TSEQ", 32)]             # 8 / 32: as instantiated by TSTransceiver
